@@ -223,6 +223,19 @@ theorem coinbaseHeight_minimal (s : Bytes) (h : Int) (hx : extractCoinbaseHeight
           · next hp => injection hx with hx; subst hx; exact hp
           · cases hx
 
+/-- BIP34 as Core states it: `CheckSerializedHeight(want)` passes (extraction succeeds with exactly
+    `want`) iff the signature script starts with `CScript() << want`, for every height 0..2^31−1. -/
+theorem checkSerializedHeight_iff (s : Bytes) (want : Nat) (hw : want < 2^31) :
+    extractCoinbaseHeight s = .ok (want : Int) ↔ (heightScript want).isPrefixOf s = true := by
+  constructor
+  · intro h
+    rw [← addInt64_eq_bip34 want hw]
+    exact coinbaseHeight_minimal s _ h
+  · intro h
+    obtain ⟨tail, ht⟩ := List.isPrefixOf_iff_prefix.mp h
+    rw [← ht]
+    exact coinbaseHeight_roundtrip want hw tail
+
 /-! ### finality and BIP68 -/
 
 /-- `IsFinalizedTransaction` = `IsFinalTx`: lock time 0, or below the height/time it refers to
